@@ -132,6 +132,7 @@ type Step struct {
 	Method string    `json:"method,omitempty"`
 	Args   []ArgSpec `json:"args,omitempty"`
 	Sock   bool      `json:"sock,omitempty"` // inst: context carries a sock.Config
+	Host   bool      `json:"host,omitempty"` // inst: the compiled module is a HOST module (HostModuleBuilder.Compile), instantiated with this configuration (documented: one host module under several names)
 	Busy   bool      `json:"busy,omitempty"` // inst with Sock: the listener's port is occupied by the harness, so the instantiation FAILS while the system context is built
 }
 
@@ -280,6 +281,7 @@ type run struct {
 	useOrc  bool
 	rt      wazero.Runtime
 	guestCM wazero.CompiledModule
+	hostCM  wazero.CompiledModule
 	ctx     context.Context
 	quiet   bool // replay/shrink mode: no report side effects except through the returned verdict
 }
@@ -793,7 +795,13 @@ func (r *run) doStep(st Step) *verdict {
 		if p.kind != "moduleConfig" {
 			return nil
 		}
-		if st.Sock && st.Busy {
+		if st.Host {
+			if res := r.instantiateHost(p, st.Sock); strings.HasPrefix(res, "error:") {
+				rep.Count("inst-host:error")
+			} else {
+				rep.Count("inst-host:ok")
+			}
+		} else if st.Sock && st.Busy {
 			if res := r.instantiateBusy(p); !strings.HasPrefix(res, "error:") {
 				rep.Count("inst-busy:did-not-fail")
 			} else {
@@ -1035,8 +1043,32 @@ func (r *run) ensureRuntime() bool {
 func (r *run) close() {
 	if r.rt != nil {
 		r.rt.Close(r.ctx)
-		r.rt = nil
+		r.rt, r.hostCM = nil, nil
 	}
+}
+
+// instantiateHost: InstantiateModule(compiled HOST module, this configuration).
+func (r *run) instantiateHost(n *node, withSock bool) string {
+	if !r.ensureRuntime() {
+		return "error:guest runtime unavailable"
+	}
+	if r.hostCM == nil {
+		cm, err := r.rt.NewHostModuleBuilder("c19host").NewFunctionBuilder().WithFunc(func(context.Context, uint32) uint32 { return 7 }).Export("f").Compile(r.ctx)
+		if err != nil {
+			return "error:" + err.Error()
+		}
+		r.hostCM = cm
+	}
+	ctx := r.ctx
+	if withSock {
+		ctx = expsock.WithConfig(ctx, expsock.NewConfig().WithTCPListener("127.0.0.1", 0))
+	}
+	mod, err := r.rt.InstantiateModule(ctx, r.hostCM, n.cfg.(wazero.ModuleConfig))
+	if err != nil {
+		return "error:" + err.Error()
+	}
+	mod.Close(ctx)
+	return "instantiated"
 }
 
 // instantiateBusy: InstantiateModule under a context whose sock.Config asks for a TCP listener on a port the harness
@@ -1230,6 +1262,9 @@ func genStep(rnd *rand.Rand, r *run, instProb int, refw map[string]bool) (Step, 
 	p := r.nodes[pi]
 	if p.kind == "moduleConfig" && rnd.Intn(100) < instProb {
 		sock := rnd.Intn(2) == 0
+		if rnd.Intn(4) == 0 {
+			return Step{Op: "inst", Parent: pi, Sock: sock, Host: true}, true
+		}
 		return Step{Op: "inst", Parent: pi, Sock: sock, Busy: sock && rnd.Intn(3) == 0}, true
 	}
 	ms := withMethods(p.cfg)
@@ -1406,7 +1441,7 @@ func describe(t Tree) []string {
 			res = fmt.Sprintf("node%d = ", before)
 		}
 		if st.Op == "inst" {
-			out = append(out, fmt.Sprintf("InstantiateModule(ctx[sock=%v port-in-use=%v], guest, node%d)", st.Sock, st.Busy, st.Parent))
+			out = append(out, fmt.Sprintf("InstantiateModule(ctx[sock=%v port-in-use=%v], %s, node%d)", st.Sock, st.Busy, map[bool]string{false: "guest", true: "compiled host module"}[st.Host], st.Parent))
 		} else {
 			out = append(out, fmt.Sprintf("%snode%d.%s(%s)", res, st.Parent, st.Method, argText(st.Args)))
 		}
@@ -1439,6 +1474,8 @@ func witnesses() []Tree {
 		{Steps: []Step{env(2, "A", "1"), env(5, "B", "2"), env(6, "C", "3"), env(7, "D", "4"), env(7, "E", "5")}},
 		// instantiate with a sock config in the context, then without
 		{Steps: []Step{env(2, "A", "1"), {Op: "inst", Parent: 5, Sock: true}, {Op: "inst", Parent: 5, Sock: false}}},
+		// a HOST module instantiated with a configuration that names start functions, then a guest with the same value
+		{Steps: []Step{{Op: "call", Parent: 2, Method: "WithStartFunctions", Args: []ArgSpec{{Name: "startFunctions", Type: "[]string", L: []string{"_start", "main"}}}}, {Op: "inst", Parent: 5, Host: true}, env(5, "B", "2"), {Op: "inst", Parent: 5}, {Op: "inst", Parent: 6}}},
 		// an instantiation with a sock config that FAILS (port in use), then derive from / reuse the same configuration
 		{Steps: []Step{env(2, "A", "1"), {Op: "inst", Parent: 5, Sock: true, Busy: true}, env(5, "B", "2"), {Op: "inst", Parent: 5, Sock: false}, {Op: "inst", Parent: 6, Sock: false}}},
 	}
@@ -1875,7 +1912,7 @@ func explore(nsteps int, guests bool, sample bool, choose func(r *run) (Step, bo
 
 func stepClass(p *node, st Step) string {
 	if st.Op == "inst" {
-		return fmt.Sprintf("inst/%v/%v", st.Sock, st.Busy)
+		return fmt.Sprintf("inst/%v/%v/%v", st.Sock, st.Busy, st.Host)
 	}
 	sv := structOf(p.cfg)
 	var caps []string
